@@ -70,23 +70,26 @@ CHECKS = {
 }
 # sentences appended to the level text: what later rounds added (DESIGN.md 9.5-9.9)
 ADDED = {
- "C01": " Also edit histories: add(), public-map inserts/removals, header changes and clone-and-diverge on one or two objects with encodings interleaved, each encoding parsed back and compared with the model of that object at that moment.",
- "C02": " The mutant search and long single values are repeated with a `log` logger enabled at trace level (rendering every record), as is the libFuzzer target.",
- "C03": " Also edit histories (see C01) judged by the reference decoder after every interleaved encoding.",
- "C06": " Also pipelined streams: several messages through ONE reader (parse_parts -> handed-back reader -> next parser), incl. a 17/69 MiB stream.",
- "C07": " Also cuts and faults inside a later message of a pipelined stream read through one reader, incl. after 17/69 MiB went through it.",
- "C09": " Also encodings in the middle of the additions, edit histories (additions, map inserts, clones), and messages that reached the encoder through serde Deserialize (explored by chk-serde, absorbed by this check).",
- "C10": " Also program sequences on one thread over target histories (related targets: letter-case relatives, partner scheme, user = host, port/query toggled).",
- "C11": " Also recovery: a failed exchange followed on the same thread by a good one that is judged completely.",
- "C12": " The matrix includes builder call histories (true-then-false, and ca_cert() before/between/after the flag calls): 992 cells.",
- "C13": " Also target histories (4-12 related targets in a row on one thread); the host must be spelled as given or in lower case.",
- "C14": " Also target histories (see C13).",
- "C15": " Also the log text rendered per parse with a trace-level logger installed, as a deterministic work measure.",
- "C16": " Also every value-tag byte repeated in a run after values of known syntaxes.",
- "C17": " Also a response built with the opposite state/reasons and then updated with add().",
- "C18": " Also --option arguments without '=' among the options, and a printer that resets the connection in the middle of the upload.",
- "C19": " Also iterator programs: generated sequences of next/nth/skip/take/step_by compared step by step with a slice iterator.",
- "C20": " Every document is also read through from_value, to_value+from_value, from_slice and from_reader.",
+ "C01": " Also edit histories: add(), public-map inserts/removals, header changes and clone-and-diverge on one or two objects with encodings interleaved, each encoding parsed back and compared with the model of that object at that moment. Every generated search is repeated with a trace-level logger installed.",
+ "C02": " The mutant search and long single values are repeated with a `log` logger enabled at trace level (rendering every record), as is the libFuzzer target. Generated inputs also go through the blocking parser called from inside futures_executor and tokio, and over a source that never ends (result dropped unread).",
+ "C03": " Also edit histories (see C01) judged by the reference decoder after every interleaved encoding. Every generated search is repeated with a trace-level logger installed.",
+ "C06": " Also pipelined streams: several messages through ONE reader (parse_parts -> handed-back reader -> next parser), incl. a 17/69 MiB stream. Bytes taken from the source after parse + drop are counted too; every generated search is repeated with a trace-level logger installed.",
+ "C07": " Also cuts and faults inside a later message of a pipelined stream read through one reader, incl. after 17/69 MiB went through it. Faults are also injected while the parser reads through the library's own sync<->async payload bridge; searches repeated with a trace-level logger installed.",
+ "C09": " Also encodings in the middle of the additions, edit histories (additions, map inserts, clones), and messages that reached the encoder through serde Deserialize (explored by chk-serde, absorbed by this check). Searches repeated with a trace-level logger installed, and the whole check once more in a binary built without debug assertions / overflow checks.",
+ "C10": " Also program sequences on one thread over target histories (related targets: letter-case relatives, partner scheme, user = host, port/query toggled). Later searches run with print-related environment variables set; searches repeated under a trace-level logger and in a binary built without debug assertions.",
+ "C11": " Also recovery: a failed exchange followed on the same thread by a good one that is judged completely. A third of the exchanges call every header / credentials setter twice (stale value first).",
+ "C12": " The matrix includes builder call histories (true-then-false, and ca_cert() before/between/after the flag calls): 992 cells. Root sets with two ca_cert() calls; the reduced matrix once more for both backends under a system trust store that cannot be loaded: 1624 cells.",
+ "C13": " Also target histories (4-12 related targets in a row on one thread); the host must be spelled as given or in lower case. Later searches run with IPP_PORT, CUPS_SERVER, LANG, ... set; searches repeated under a trace-level logger and in a binary built without debug assertions.",
+ "C14": " Also target histories (see C13). Later searches run with IPP_PORT etc. set; live: first octets on the wire (TLS ClientHello vs HTTP request line) per scheme, client and feature set (native-tls, rustls-only); repeated in a binary built without debug assertions.",
+ "C15": " Also the log text rendered per parse with a trace-level logger installed, as a deterministic work measure. Client path: allocation on the calling thread while send() parses a small response followed by a 48/160 MiB document; raw-octet value families; allocation bounded under trace logging.",
+ "C16": " Also every value-tag byte repeated in a run after values of known syntaxes. All 65536 codes also in a header that reaches both parsers in pieces; repeated in a binary built without debug assertions.",
+ "C17": " Also a response built with the opposite state/reasons and then updated with add(). Also the response parsed by both parsers from pieces of 1-7 octets; repeated under a trace-level logger and in a binary built without debug assertions.",
+ "C18": " Also --option arguments without '=' among the options, and a printer that resets the connection in the middle of the upload. One case in six hands the document over through a named pipe or --file=/dev/stdin.",
+ "C19": " Also iterator programs: generated sequences of next/nth/skip/take/step_by compared step by step with a slice iterator. Histories contain structural edits through groups_mut(); repeated under a trace-level logger and in a binary built without debug assertions.",
+ "C20": " Every document is also read through from_value, to_value+from_value, from_slice and from_reader. Serialise - edit - serialise, and a clone extended after the first serialisation; searches repeated with a trace-level logger installed.",
+ "C04": " Every generated search is repeated with a trace-level logger installed.",
+ "C05": " Every generated search is repeated with a trace-level logger installed.",
+ "C08": " Consumer styles: zero-length requests, vectored reads, read_to_end, a BufReader around the reader, the reader moved to another thread mid-stream, one transient WouldBlock from the payload source; searches repeated with a trace-level logger installed.",
 }
 NOT_YET = {
 }
@@ -110,7 +113,8 @@ m = {
  "engines": [
   {"name": "chk", "path": "harness/chk", "serves_properties": [i for i in ids if i in CHECKS and i not in ("C20",)], "kind_free_text": "Rust binary: proptest-driven generators + explicit oracles (reference RFC 8010 codec, models, scripted I/O, loopback servers), seeded by VERIF_SEED, sharded over 16 threads"},
   {"name": "chk-serde", "path": "harness/chk-serde", "serves_properties": ["C20", "C09"], "kind_free_text": "same core, ipp built with feature serde; for C09 it runs as a child of chk (serde-loaded messages)"},
-  {"name": "chk-rustls", "path": "harness/chk-rustls", "serves_properties": ["C12"], "kind_free_text": "rustls half of the TLS matrix (ipp built with the rustls client features)"},
+  {"name": "chk-rustls", "path": "harness/chk-rustls", "serves_properties": ["C12", "C14"], "kind_free_text": "rustls half of the TLS matrix and of C14's live first-octets check (ipp built with the rustls client features only)"},
+  {"name": "chk (profile plain)", "path": "harness/chk", "serves_properties": ["C09", "C10", "C13", "C14", "C16", "C17", "C19"], "kind_free_text": "the same chk built with cargo profile `plain` (no debug assertions, no overflow checks - the configuration users ship); run as a child whose counts and violations the main run absorbs"},
   {"name": "fuzz", "path": "fuzz", "serves_properties": ["C01", "C02", "C04", "C05"], "kind_free_text": "cargo-fuzz / libFuzzer targets with the semantic oracle inside the target (thorough tier)"},
  ],
  "checks": [],
